@@ -802,3 +802,87 @@ def gen_any_op(world, rng, insts, validity=None, inplace=None):
     if r < 0.30:
         return {"kind": "delattr", "target": target, "attr": rng.choice(list(attrs)), "hkind": "delattr", "validity": validity, "form": "del", "inplace": True}
     return gen_helper(world, rng, insts, target, validity=validity, inplace=inplace)
+
+
+# ---------------------------------------------------------------------------
+# value slots of an operation (where a value of a known expected type is passed)
+# ---------------------------------------------------------------------------
+
+LEAF_ATTR_BAD = {"v": cg.R_lit("not-an-int"), "w": cg.R_lit(5), "ws": cg.R_lit(["x"]), "k": cg.R_lit(5)}
+
+
+def value_slots(world, insts, op):
+    """
+    [(where, key, expected)] for every argument slot of `op` that carries a value of a known declared type.
+    where = "args" | "kwargs"; expected = ("attr", tk) | ("elem", kind) | ("leafattr", name) | ("dictkey",)
+    """
+    k = op["kind"]
+    out = []
+    if k == "construct":
+        attrs = world.decl.attrs_of(op["cls"])
+        for n in op.get("kwargs", {}):
+            if n in attrs:
+                out.append(("kwargs", n, ("attr", attrs[n][1].tk)))
+        return out
+    if "target" not in op:
+        return out
+    cname = class_name(world, insts[op["target"]])
+    attrs = world.decl.attrs_of(cname)
+    if k == "setattr":
+        return [("args", 0, ("attr", attrs[op["attr"]][1].tk))]
+    if k != "helper":
+        return out
+    hk, form = op["hkind"], op.get("form") or ""
+    user_kw = [n for n in op.get("kwargs", {}) if not n.startswith("_")]
+    if hk == "update":
+        return [("kwargs", n, ("attr", attrs[n][1].tk)) for n in user_kw if n in attrs]
+    if hk in ("transform", "transform_attr", "transform_item", "reset", "reset_attr", "without_item"):
+        return out
+    a = attrs[op["attr"]][1]
+    t = a.info
+    if hk in ("with", "update_attr"):
+        if op["args"] and form in ("value", "value+kwargs", "iterable"):
+            out.append(("args", 0, ("attr", a.tk)))
+        if t.kind == "spec":
+            out += [("kwargs", n, ("leafattr", n)) for n in user_kw]
+        return out
+    # element helpers
+    elem = t.elem
+    if elem in ("leaf", "kleaf"):
+        out += [("kwargs", n, ("leafattr", n)) for n in user_kw if n in ("v", "w", "ws", "k")]
+    if hk == "with_item":
+        if t.kind == "dict":
+            if op["args"]:
+                out.append(("args", 0, ("dictkey",)))
+            if len(op["args"]) > 1:
+                out.append(("args", 1, ("elem", elem)))
+        elif op["args"] and form in ("append", "index", "insert", "by_key", "item"):
+            out.append(("args", 0, ("elem", elem)))
+    elif hk == "update_item":
+        if len(op["args"]) > 1:
+            out.append(("args", 1, ("elem", elem)))
+    return out
+
+
+def substitute_nonconf(op, slot, rng):
+    """Copy of `op` with the value at `slot` replaced by one that does not conform at exactly that position."""
+    where, key, expected = slot
+    bad_op = copy.deepcopy(op)
+    if expected[0] == "attr":
+        rec, tag = rng.choice(cg.nonconf_recipes(expected[1]))
+    elif expected[0] == "elem":
+        rec, tag = rng.choice(cg.elem_nonconf(expected[1]))
+        tag = "element:" + tag
+    elif expected[0] == "leafattr":
+        rec, tag = LEAF_ATTR_BAD[expected[1]], f"nested_attr:{expected[1]}"
+    else:
+        rec, tag = rng.choice([(cg.R_lit(1), "key:int_for_str"), (cg.R_lit(None), "key:none"), (["tuple", [1]], "key:tuple_for_str")])
+    if where == "args":
+        bad_op["args"][key] = rec
+        if bad_op["kind"] == "setattr":
+            bad_op["value"] = rec
+    else:
+        bad_op["kwargs"][key] = rec
+    bad_op["validity"] = "nonconf"
+    bad_op["position"] = f"{op.get('hkind', op['kind'])}:{where}[{key}]:{tag}"
+    return bad_op
